@@ -456,6 +456,8 @@ struct app {
                 else if (k == "auto_shutdown") w.auto_shutdown = jint(s, "auto_shutdown", 1);
                 else if (k == "chunk") w.chunk = (size_t) jint(s, "chunk", 0);
                 else if (k == "auto_retransmit") br.auto_retransmit = jint(s, "auto_retransmit", 1);
+                else if (k == "wfault_at") { w.wfault_at = w.next_wid - 1 + (int) jint(s, "wfault_at", 0); w.wfault_deliver = jint(s, "wfault_deliver", 0); w.wfault_ec = jstrk(s, "wfault_ec", "reset"); }
+                else if (k == "rfault_after") { w.rfault_after = w.rbytes_total + jint(s, "rfault_after", 0); }
             }
             if (w.auto_deliver) for (auto& st : w.streams) w.try_deliver(*st);
             if (w.auto_write) for (auto& st : w.streams) if (st->wr) { w.deliver_write(*st, SIZE_MAX); w.finish_write(*st, {}); }
